@@ -398,7 +398,9 @@ func TestC12Stateful(t *testing.T) {
 			}
 		}
 		registrable := []string{"a.com", "b.com", "c.com", "s.a.com", "x.a.com", "p.com", "k.p.com"}
-		recNames := []string{"a.com", "b.com", "c.com", "s.a.com", "x.a.com", "y.x.a.com", "xs.a.com", "z.s.a.com", "p.com", "k.p.com", "q.k.p.com"}
+		recNames := []string{"a.com", "b.com", "c.com", "s.a.com", "x.a.com", "y.x.a.com", "xs.a.com", "z.s.a.com", "p.com", "k.p.com", "q.k.p.com",
+			// sub-names two labels below names that get registered later (x.a.com, k.p.com): a conflict all the same
+			"w.y.x.a.com", "r.q.k.p.com"}
 		// a sub-name of exactly 255 bytes (the longest name there is): with the trailing root dot its spelling has 256
 		longest := strings.Repeat("l", 63) + "." + strings.Repeat("m", 63) + "." + strings.Repeat("n", 63) + "." + strings.Repeat("o", 57) + ".a.com"
 		if len(longest) != 255 {
